@@ -382,6 +382,14 @@ func runC03(t *testing.T, c *choice.Stream, r *Result, opt RunOpt) {
 		nop := func(*refproto.ClientPacket) []byte { return nil }
 		switch pingAnswer {
 		case "pong":
+			if c.Bool("pong.eager", 1, 3) {
+				// a server that answers the probe it knows is coming before it has read it:
+				// the Pong travels right behind the end of the query's response, possibly
+				// in the same segment, and must still be there when the client asks
+				script = append(script, simnet.Step{Label: "pong", Send: (&SPacket{Kind: "pong"}).Encode(cf)}, simnet.Step{Label: "ping", OnPacket: nop},
+					simnet.Step{Label: "ping", OnPacket: nop}, simnet.Step{Label: "pong", Send: (&SPacket{Kind: "pong"}).Encode(cf)})
+				break
+			}
 			script = append(script, simnet.Step{Label: "ping", OnPacket: nop}, simnet.Step{Label: "pong", Send: (&SPacket{Kind: "pong"}).Encode(cf)},
 				simnet.Step{Label: "ping", OnPacket: nop}, simnet.Step{Label: "pong", Send: (&SPacket{Kind: "pong"}).Encode(cf)})
 		case "exception":
